@@ -25,7 +25,8 @@ func init() {
 	evidenceInfo["C16"] = evInfo{
 		rule: "one evaluation = one project built once + one generated call history (2-10 calls over ToJson, ToJsonIndent, ToOpenAPIJson, ToOpenAPIJsonIndent, Title; " +
 			"environment re-drawn before each call: map order canonical/permuted/reversed, pool policy real/isolating/LIFO-reuse/fresh-only, pool drop, ambient seed). " +
-			"Projects: seeded generator (TYPE/ENUM/regex/allOf/or/URL/methods/JSON-RPC/MACRO/INCLUDE) and the repository corpus. " +
+			"Projects: seeded generator (TYPE/ENUM/regex/allOf/or/any/URL/methods/JSON-RPC/MACRO/INCLUDE) and the repository corpus. " +
+			"Phase 'enum' first runs EVERY call sequence up to length 3 (quick, 6 seed projects) / 5 (thorough, 20 seed projects) under the canonical environment. " +
 			"non-trivial = project accepted and history has >= 2 calls; distinct = distinct (project content hash, call sequence) pairs",
 		components: stdComponents,
 		assumptions: []string{
@@ -36,8 +37,44 @@ func init() {
 	}
 }
 
+// histCount: number of call sequences over the five accessors of length 1..maxLen.
+func histCount(maxLen int) int {
+	n, p := 0, 1
+	for l := 1; l <= maxLen; l++ {
+		p *= len(accessors)
+		n += p
+	}
+	return n
+}
+
+func histByIndex(index int) []string {
+	l, p := 1, len(accessors)
+	for index >= p {
+		index -= p
+		p *= len(accessors)
+		l++
+	}
+	var ops []string
+	for i := 0; i < l; i++ {
+		ops = append(ops, accessors[index%len(accessors)])
+		index /= len(accessors)
+	}
+	return ops
+}
+
+const (
+	c16EnumProjectsQuick    = 6
+	c16EnumProjectsThorough = 20
+)
+
 func (c16Engine) Plan(tier string) []Phase {
-	return []Phase{{Mode: "random", Share: 1}}
+	// "enum": for a pool of seed projects, EVERY call sequence up to a length bound (quick: 3 ->
+	// 155 sequences x 6 projects; thorough: 5 -> 3905 sequences x 20 projects) under the canonical
+	// environment; then the seeded search with changing environments.
+	if tier == "thorough" {
+		return []Phase{{Mode: "enum", Count: histCount(5) * c16EnumProjectsThorough}, {Mode: "random", Share: 1}}
+	}
+	return []Phase{{Mode: "enum", Count: histCount(3) * c16EnumProjectsQuick}, {Mode: "random", Share: 1}}
 }
 
 func pickProject(r *Rand, corpusShare int) *Project {
@@ -81,6 +118,20 @@ func randEnv(r *Rand) Env {
 func (c16Engine) Gen(job *Job) *Case {
 	r := NewRand(job.Seed)
 	c := &Case{Prop: "C16", Seed: job.Seed, Entry: "path"}
+	if job.Mode == "enum" {
+		pool, maxLen := c16EnumProjectsQuick, 3
+		if job.Tier == "thorough" {
+			pool, maxLen = c16EnumProjectsThorough, 5
+		}
+		pi := job.Index % pool
+		pr := NewRand(RunSeed(0xC16, uint64(pi)))
+		c.Project = pickProject(pr, 40)
+		for _, op := range histByIndex((job.Index / pool) % histCount(maxLen)) {
+			c.History = append(c.History, Step{Op: op})
+		}
+		c.Note = "enum"
+		return c
+	}
 	c.Project = pickProject(r, 40)
 	if r.Chance(1, 3) {
 		c.Entry = "mem"
